@@ -252,6 +252,8 @@ func TestVerifReplayConverge(t *testing.T) {
 		"a stronger intent takes the choice over, the transaction is cancelled":           {{name: "O2", prio: 10, json: case1}, {name: "O1", prio: 5, json: case2, cancel: true}},
 		"delete request that carries updates":                                             {{name: "A", prio: 10, json: ifA}, {name: "B", prio: 20, json: pattern}, {name: "A", prio: 10, json: "", carries: ifTwo}},
 		"orphan request that carries the current content":                                 {{name: "A", prio: 10, json: ifA}, {name: "A", prio: 10, json: "", orphan: true, carries: ifA}},
+		"presence container of a case takes the choice over":                              {{name: "O2", prio: 10, json: case1}, {name: "O1", prio: 5, json: case2E}},
+		"presence container of a case is the only contribution":                           {{name: "O1", prio: 5, json: case2E}},
 		"deleted intent cancelled":                                                        {{name: "A", prio: 10, json: ifTwo}, {name: "A", prio: 10, json: "", cancel: true}},
 	}
 	// several intents in one transaction: what the intended store holds of any of them is a former version. The order in
@@ -590,7 +592,9 @@ func TestVerifReplayConverge(t *testing.T) {
 				}
 				fmt.Printf("REPLAY-FAIL fn=%s clause=%s input=%s why=device differs from the merge of the live intents: %s\n", fn, clause, in, strings.Join(diffs, "; "))
 				if strings.Contains(hname, "case") && !strings.HasSuffix(clause, ".known") {
-					fmt.Printf("REPLAY-FAIL fn=%s clause=%s input=%s why=device differs from the merge of the live intents: %s\n", "(*tree.sharedEntryAttributes).populateChoiceCaseResolvers", clause, in, strings.Join(diffs, "; "))
+					for _, f := range []string{"(*tree.sharedEntryAttributes).populateChoiceCaseResolvers", "(*tree.sharedEntryAttributes).getHighestPrecedenceValueOfBranch"} {
+						fmt.Printf("REPLAY-FAIL fn=%s clause=%s input=%s why=device differs from the merge of the live intents: %s\n", f, clause, in, strings.Join(diffs, "; "))
+					}
 				}
 				if fn != fnLL {
 					fmt.Printf("REPLAY-FAIL fn=%s clause=%s input=%s why=device differs from the merge of the live intents: %s\n", fnLL, clause, in, strings.Join(diffs, "; "))
